@@ -35,10 +35,9 @@ Theorem C12_defs_at_own_pos : forall p, pkg_names_distinct p -> nfp_prog p = [] 
   forall i o, In (EvDef i o) (run p) -> opos o = InFile (ipos i).
 Proof. exact defs_at_own_pos. Qed.
 
-(* every node recorded in Defs / Uses / Types / Scopes is a node of the checked file -- for every
-   program without an untyped {...} literal (for which recordCompositeLit records the nil v.Type) *)
-Theorem C12_recorded_nodes_in_files : forall p, typed_prog p = true ->
-  forall ev, In ev (run p) -> ev_in (nodes_prog p) ev.
+(* every node recorded in Defs / Uses / Types / Scopes is a node of the checked file -- ALL programs
+   (since the repair 1324664 of recordCompositeLit an untyped {...} literal records no nil key) *)
+Theorem C12_recorded_nodes_in_files : forall p ev, In ev (run p) -> ev_in (nodes_prog p) ev.
 Proof. exact recorded_nodes_in_files. Qed.
 
 (* the blank identifier and re-declared names of := are never recorded by defNames *)
@@ -79,12 +78,13 @@ Theorem C12_redeclared_and_blank_unrecorded :
   [MDef true (InFile 6); MDef true (InFile 16); MNone; MDef false (InFile 24); MNone].
 Proof. vm_compute. reflexivity. Qed.
 
-(* func main() { var m = {"k": 1} } : a node without position is recorded in Types *)
+(* func main() { var m = {"k": 1} } : the untyped literal records its own node only *)
 Definition ex_untyped : prog :=
   [DFunc 6 (Id 100 6) [] [] [] [] 13 (SCons (SVar [Id 101 20] [] (ECons (EXMap 24 (ECons (ELit 30) ENil)) ENil)) SNil)].
-Theorem C12_recorded_nodes_refuted :
-  In (EvType NoPos) (run ex_untyped) /\ ~ ev_in (nodes_prog ex_untyped) (EvType NoPos).
-Proof. split; [vm_compute; auto 10 | simpl; tauto]. Qed.
+Example C12_example_untyped_literal :
+  has_nil_type (run ex_untyped) = false /\ In (EvType (InFile 24)) (run ex_untyped) /\
+  forallb (node_ok (nodes_prog ex_untyped)) (run ex_untyped) = true.
+Proof. vm_compute. auto 10. Qed.
 
 (* ---- non-vacuity: a program with shadowing satisfies all hypotheses; the resolver resolves lexically ---- *)
 
@@ -98,7 +98,7 @@ Definition ex_shadow : prog :=
      (SCons (SReturn (ECons (EUse (Id 102 67)) ENil)) SNil)))].
 
 Example C12_example_wf : wf_pos ex_shadow /\ pkg_names_distinct ex_shadow /\ nfp_prog ex_shadow = [] /\
-  rg_prog ex_shadow = [] /\ typed_prog ex_shadow = true.
+  rg_prog ex_shadow = [].
 Proof.
   split; [|split; [|auto]].
   - unfold wf_pos. vm_compute. repeat constructor; simpl; intuition discriminate.
@@ -128,4 +128,3 @@ Print Assumptions C12_recorded_nodes_in_files.
 Print Assumptions C12_blank_not_recorded.
 Print Assumptions C12_defs_at_own_pos_refuted_multiname.
 Print Assumptions C12_defs_at_own_pos_refuted_range.
-Print Assumptions C12_recorded_nodes_refuted.
